@@ -36,9 +36,25 @@ ASSUMPTIONS = ['numpy tofile/memmap and float32 <-> bits conversion are trusted 
 MIN_NONTRIVIAL = {'quick': 30, 'thorough': 300}
 
 
+def _gen_wline(rng):
+    """one Fortran record written by FortranFileUtil.writeline (the helper the legacy writers, point_source among them,
+    call for every record - with ForceBig=False too): items of four bytes each, big-endian whatever the flag says"""
+    n = rng.randint(1, 6)
+    kinds = [rng.choice('iif') if rng.random() < 0.85 else 's' for _ in range(n)]
+    vals = [rng.randint(-2 ** 31, 2 ** 31 - 1) if k == 'i' else (rng.choice([0.5, -1.25, 3.0e7, 1.0, -0.0]) if k == 'f'
+                                                                   else rng.choice(['ABCD', 'NO2 ', 'x   ']))
+            for k in kinds]
+    return dict(kind='wline', kinds=kinds, vals=vals, forcebig=rng.random() < 0.5)
+
+
+def _wline_payload(case):
+    return b''.join(struct.pack('>i', v) if k == 'i' else (struct.pack('>f', v) if k == 'f' else v.encode())
+                    for k, v in zip(case['kinds'], case['vals']))
+
+
 def gen(rng, tier):
     n = 80 if tier == 'quick' else 3000
-    out = []
+    out = [_gen_wline(rng) for _ in range(max(6, n // 10))]
     for i in range(n):
         if i % 5 == 4:
             c = camx.gen_uamiv_read_domain(rng) if i % 10 == 4 else camx.gen_uamiv_one_day(rng)
@@ -459,6 +475,14 @@ def impl(case):
     if case.get('kind') == 'bpch':
         from . import c18
         return c18.impl(case)
+    if case['kind'] == 'wline':
+        from PseudoNetCDF.camxfiles.FortranFileUtil import writeline
+        fmt = ''.join('4s' if k == 's' else k for k in case['kinds'])
+        vals = [v.encode() if k == 's' else v for k, v in zip(case['kinds'], case['vals'])]
+        try:
+            return dict(hex=writeline(vals, fmt, ForceBig=case['forcebig']).hex())
+        except Exception as e:
+            return dict(err=type(e).__name__, msg=str(e)[:120])
     if case['kind'] == 'land':
         return L.impl(case)
     if case['kind'] == 'wread':
@@ -493,6 +517,8 @@ def to_line(case, res):
     if case.get('kind') == 'bpch':
         from . import c18
         return c18.to_line(case, res)
+    if case['kind'] == 'wline':
+        return 'bin frame ' + _wline_payload(case).hex()
     if case['kind'] == 'land':
         return L.to_line(case, res)
     if case['kind'] == 'bnd':
@@ -516,6 +542,10 @@ def agree(case, out, res):
     if case.get('kind') == 'bpch':
         from . import c18
         return c18.agree(case, out, res)
+    if case['kind'] == 'wline':
+        if 'err' in res:
+            return 'writeline raised %s %s' % (res['err'], res.get('msg'))
+        return None if out == 'ok ' + res['hex'] else 'writeline record %s, model %s' % (res['hex'][:80], out[:80])
     if case['kind'] == 'land':
         return L.agree(case, out, res)
     if case['kind'] == 'wread':
@@ -596,6 +626,13 @@ def oracle(case, res):
     if case.get('kind') == 'bpch':
         from . import c18
         return c18.oracle(case, res)
+    if case['kind'] == 'wline':
+        p = _wline_payload(case)
+        want = (struct.pack('>i', len(p)) + p + struct.pack('>i', len(p))).hex()
+        if 'err' in res:
+            return None
+        return None if res['hex'] == want else 'writeline(ForceBig=%s) wrote %s, a big-endian record of the %d payload bytes is %s' % (
+            case['forcebig'], res['hex'][:60], len(p), want[:60])
     """independent python record walker: markers tile the file, header counts match, content recovered"""
     if case['kind'] == 'land':
         return L.oracle_layout(case, res)
@@ -700,6 +737,8 @@ def _crosses_2000(case):
 def nontrivial(case, res):
     if case.get('kind') == 'bpch':
         return 'err' not in res and len(case['blocks']) >= 2
+    if case['kind'] == 'wline':
+        return len(case['kinds']) >= 2
     if case['kind'] == 'land':
         return L.nontrivial(case, res)
     if case['kind'] == 'bnd':
